@@ -507,9 +507,8 @@ def judge_contract(inp, obs, lr):
     if rows:
         for ex, m in zip(rows, obs["mats"]):
             for i, v in ex.items():
-                ok = close(np.array(m)[i], L.fl(v), 1e-9)
-                if not ok and inp["force_oriented"] and i == inp["dim"]:
-                    ok = close(-np.array(m)[i], L.fl(v), 1e-9)   # make_orientation_preserving negates the last row
+                # a row is prescribed as a point / direction: up to sign (and make_orientation_preserving may negate the last row)
+                ok = close(np.array(m)[i], L.fl(v), 1e-9) or close(-np.array(m)[i], L.fl(v), 1e-9)
                 if not ok:
                     return {"expected": {"row": i, "value": [float(x) for x in v]}, "observed": np.array(m)[i].tolist(),
                             "tags": dict(tags, row=i)}
@@ -674,7 +673,19 @@ def run_oracle(inp):
         except Exception:
             pass
     rebuilt = [np.asarray(build_fletter(l, dim).matrix, dtype=float) for l in inp["pool"]]
-    out["rebuild_dev"] = max(float(np.max(np.abs(a - b)) / (1 + np.max(np.abs(a)))) for a, b in zip(snap, rebuilt))
+    FRAME_ROWS = {"origin_to": [0], "timelike_to": [0], "spacelike_to": [1], "tv_origin_to": [0, 1]}      # else: the whole matrix
+    devs = []
+    for l, a, b in zip(inp["pool"], snap, rebuilt):
+        if l["kind"] == "isometry_to":
+            devs.append(0.0 if fres(b) <= 1e-9 else 1.0)          # a product of two frame completions: only "is an isometry" is determined
+            continue
+        rows = FRAME_ROWS.get(l["kind"])
+        if rows is None:
+            devs.append(float(np.max(np.abs(a - b)) / (1 + np.max(np.abs(a)))))
+        else:
+            devs.append(max(float(min(np.max(np.abs(a[i] - b[i])), np.max(np.abs(a[i] + b[i]))) / (1 + np.max(np.abs(a)))) for i in rows))
+            devs.append(0.0 if fres(b) <= 1e-9 else 1.0)
+    out["rebuild_dev"] = max(devs)
     return out
 
 
@@ -892,8 +903,17 @@ def run_pack(inp):
         M = np.asarray(build_pack(inp, inp["pack"]).matrix, dtype=float)
     except Exception as e:
         return {"exc": type(e).__name__, "msg": str(e)[:160], "ref_res": fres(ref)}
-    return {"res": fres(M), "ref_res": fres(ref), "same": bool(M.shape == ref.shape and np.max(np.abs(M - ref)) <= 1e-5 * (1 + np.max(np.abs(ref)))),
-            "M": M.tolist()}
+    # rows the constructor's contract determines (the completion of a frame is "not uniquely determined"): origin_to / timelike_to
+    # row 0, spacelike_to row 1, TangentVector.origin_to rows 0 and 1, each up to sign; everything for the closed-form constructors
+    det_rows = {"origin_to": [0], "timelike_to": [0], "spacelike_to": [1], "tangent": [0, 1]}.get(inp["kind"])
+    if M.shape != ref.shape:
+        same = False
+    elif det_rows is None:
+        same = bool(np.max(np.abs(M - ref)) <= 1e-5 * (1 + np.max(np.abs(ref))))
+    else:
+        same = all(min(np.max(np.abs(M[..., i, :] - ref[..., i, :])), np.max(np.abs(M[..., i, :] + ref[..., i, :]))) <= 1e-5 * (1 + np.max(np.abs(ref)))
+                   for i in det_rows)
+    return {"res": fres(M), "ref_res": fres(ref), "same": bool(same), "M": M.tolist()}
 
 
 def judge_pack(inp, obs, lr):
